@@ -39,7 +39,7 @@ func main() {
 	}
 }
 
-// Pkg is one type-checked package directory (non-test files, verif_* hook files excluded).
+// Pkg is one type-checked package directory (non-test files, verif_on.go hook files excluded; the no-op verif_off.go stays so that hook call lines type-check).
 type Pkg struct {
 	Rel   string
 	Fset  *token.FileSet
@@ -71,7 +71,7 @@ func (l *loader) load(rel string, only ...string) (*Pkg, error) {
 	var files []*ast.File
 	for _, e := range ents {
 		n := e.Name()
-		if e.IsDir() || !strings.HasSuffix(n, ".go") || strings.HasSuffix(n, "_test.go") || strings.HasPrefix(n, "verif_") {
+		if e.IsDir() || !strings.HasSuffix(n, ".go") || strings.HasSuffix(n, "_test.go") || strings.HasPrefix(n, "verif_on") {
 			continue
 		}
 		f, err := parser.ParseFile(l.fset, filepath.Join(dir, n), nil, parser.ParseComments)
